@@ -16,7 +16,7 @@ from .treebase import TreeObserver
 PID = "C16"
 LEVEL = "exploration"
 ENGINE = "ctxsim"
-REACH = ['tree:accept', 'tree:reject', 'tree:AnnotationError', 'leafkind:nest', 'leafkind:tup', 'leafkind:uni']  # counters (prefixes) that a healthy batch makes non-zero; gaps are reported in the evidence
+REACH = ['history_shadow_judged', 'tree:accept', 'tree:reject', 'tree:AnnotationError', 'leafkind:nest', 'leafkind:tup', 'leafkind:uni']  # counters (prefixes) that a healthy batch makes non-zero; gaps are reported in the evidence
 BUDGET = {"quick": 35, "thorough": 600}
 RULE = (
     "Seeded histories in jaxtyped('context') blocks: 2-4 checks of trees sharing one skeleton against "
